@@ -694,6 +694,7 @@ def run(tier, is_known):
             ("routed", "mix", 2, (0, 0), 1, 6, 60000, 600),
             ("lan", "core", 2, (1, 1), 1, 6, 60000, 600),
             ("lan", "data", 2, (1, 1), 2, 6, 60000, 600),
+            ("lan", "conn", 0, (0, 0), 1, 4, 60000, 300),
         ]
     else:
         plan = [
@@ -701,6 +702,7 @@ def run(tier, is_known):
             ("lan", "conn", 2, (0, 0), 1, 3, 30000, 45),
             ("lan", "data", 2, (0, 0), 1, 5, 30000, 45),
             ("routed", "mix", 2, (0, 0), 1, 4, 30000, 45),
+            ("lan", "conn", 0, (0, 0), 1, 3, 30000, 30),  # a session limit of 0: always at capacity
         ]
     viols = []
     per = []
